@@ -23,6 +23,7 @@ import RV.C09.Tables
     `time/datetime.fromisoformat` on the XSD-shaped fragment `hh:mm:ss[.f+][Z|±hh:mm]`
   No floats anywhere: `xsd:float/double` are outside the model.
 
+  A lexical form given as `bytes` is decoded as UTF-8 first (fix C09-F11) and is then the `str` case.
   Strings are `List Char`; Python `None` is `Option.none`; an exception escaping
   `Literal(...)` is `none` of `mkLex`/`mkPy`.
 -/
@@ -834,5 +835,29 @@ def Lit.eq (a b : Lit) : Option Bool :=
       if a.lex == b.lex then some true
       else if a.dt == some .string then some false
       else none
+
+/-- which Python objects `Literal.eq` compares with a literal of datatype `dt` (its docstring: str with plain /
+    xsd:string literals, bool with xsd:boolean, int / float / Decimal with the numeric types, date / time /
+    datetime with xsd:date / time / dateTime, timedelta / Duration with the three duration datatypes) -/
+def eqPyDomain (dt : Option Dt) (v : PyVal) : Bool :=
+  match v with
+  | .str _ => isStringDt dt
+  | .bool _ => dt == some .boolean
+  | .int _ | .dec .. => isNumeric dt
+  | .date .. | .time .. | .datetime .. => dt == some .date || dt == some .time || dt == some .dateTime
+  | .timedelta _ | .duration .. =>
+    dt == some .duration || dt == some .dayTimeDuration || dt == some .yearMonthDuration
+  | .bytes _ => false
+
+/-- `Literal.eq(other)` for a plain Python object (no language tag); `none` = `NotImplemented` -/
+def Lit.eqPy (l : Lit) (v : PyVal) : Option Bool :=
+  if eqPyDomain l.dt v then
+    match v with
+    | .str s => some (l.lex == s)                    -- `str(self) == other`
+    | _ =>
+      match l.value with                             -- `self.value == other`
+      | some x => some (pyEq x v)
+      | none => some false
+  else none
 
 end RV.C09
